@@ -2,6 +2,7 @@ import Amgcl.Proofs.SchedKernels
 import Amgcl.Proofs.SchedGersh
 import Amgcl.Proofs.SchedMicro
 import Amgcl.Proofs.SchedSort
+import Amgcl.Proofs.SchedLevelsN
 /-!
 # C09 — results do not depend on the number of threads or their interleaving
 
@@ -11,12 +12,13 @@ Level-scheduled kernels (`gauss_seidel::parallel_sweep`, `ilu_solve::sptr_solve`
 
 * `tasks_partition`   for every thread count `nt ≥ 1` the tasks of a level, in thread order, are exactly the rows
   of that level in increasing order (all level vectors, all sizes).
-* `counting_sort_eq_spec`, `counting_sort_is_stable_sort`, `counting_sort_level_segments`   step 2 of the constructors
+* `counting_sort_eq_spec`, `counting_sort_is_stable_sort`, `counting_sort_level_segments`, `counting_sort_in_bounds`   step 2 of the constructors
   as the code does it (`Model/ScheduleSort.lean`: histogram, in-place `std::partial_sum`, scatter
   `order[start[level[i]]++] = i`, `std::rotate`) yields, for every level vector, a permutation of `0..n-1` sorted by
   level with ties in increasing row order — the stable (merge) sort of the rows by level — and `start[lev]` = number of
   rows below level `lev`.  `schedule_literal_eq_spec`: steps 2–4 executed statement by statement (`scheduleLit`, what
-  the driver runs) give the task table `tasks` all other theorems speak about; `lit_*`: the main theorems restated for
+  the driver runs) give the task table `tasks` all other theorems speak about; `levels_literal_eq_spec`,
+  `constructor_literal_eq_spec`: the same from the pattern on, with `nlev` accumulated inside the loop of step 1; `lit_*`: the main theorems restated for
   the literal schedule (every row exactly once, dependencies in strictly earlier levels, no conflict inside a level,
   every admitted execution = serial).
 * `ilu_levels_no_conflict`, `gs_levels_no_conflict`   a row never shares a level with a row whose unknown it reads;
@@ -239,6 +241,22 @@ theorem counting_sort_level_segments (level : Array Nat) (lev : Nat) (hlev : lev
   rw [← flatMap_levelRows_length]
   exact order_length level
 
+/-- **No out-of-bounds access in steps 2–4** (the model's arrays ignore out-of-range writes and read 0 out of range,
+so this is a separate statement): for every level vector, in every iteration the histogram increment
+`++start[level[i]+1]`, the read/increment of `start[level[i]]` and the write `order[start[level[i]]] = i` are in
+bounds; and every `task(beg, end)` of step 3 satisfies `beg ≤ end ≤ n`, so step 4 reads `order[r]` in bounds. -/
+theorem counting_sort_in_bounds (level : Array Nat) :
+    (∀ k, k < level.size →
+      level.getD k 0 + 1 < (csHist level).size ∧
+      (let os := (List.range k).foldl (scatterStep level)
+          (Array.replicate level.size 0, csPsum (csHist level) (nlev level + 1))
+       level.getD k 0 < os.2.size ∧ os.2.getD (level.getD k 0) 0 < os.1.size))
+    ∧ ∀ nt tid lev, tid < nt → lev < nlev level →
+      (let t := ((tasksLit (countingSortLit level).2 (nlev level) nt).getD tid []).getD lev (0, 0)
+       t.1 ≤ t.2 ∧ t.2 ≤ (countingSortLit level).1.size) :=
+  ⟨fun k hk => scatter_in_bounds level k hk,
+   fun nt tid lev htid hlev => tasksLit_in_bounds level nt tid lev htid hlev⟩
+
 /-- **Steps 2–4 as the code runs them produce the task table of the specification**: for every level vector and every
 thread count, gathering `order[t.beg .. t.end)` for the `task(beg, end)` that step 3 computes from the rotated `start`
 gives, for thread `tid` and level `lev`, the `tid`-th chunk of the rows of level `lev`.  Hence every theorem of this
@@ -250,6 +268,31 @@ theorem schedule_literal_eq_spec (level : Array Nat) (nt : Nat) : scheduleLit le
 example : scheduleLit #[0, 1, 0, 0, 1, 0, 0] 3 = [[[0, 2], [1]], [[3, 5], [4]], [[6], []]] := by decide +kernel
 example : tasksLit (countingSortLit #[0, 1, 0, 0, 1, 0, 0]).2 2 3 = [[(0, 2), (5, 6)], [(2, 4), (6, 7)], [(4, 5), (7, 7)]] := by
   decide +kernel
+
+/-- **Step 1 with the accumulator `nlev = std::max(nlev, l+1)`**: for every pattern the loop of step 1 as the code
+runs it (`levelsGenN`: level vector and `nlev` threaded through the loop) returns the level vector of `levelsGen` and
+`nlev` = 1 + the largest level of the *final* vector — a row's level is final once the row has been visited, because
+the repair loop only raises rows that are visited later.  All three instances: ILU, Gauss–Seidel unpatched, repaired. -/
+theorem levels_literal_eq_spec (b : Bool) (P : Pattern) :
+    iluLevelsN b P = (iluLevels b P, nlev (iluLevels b P))
+    ∧ gsLevelsAsIsN b P = (gsLevelsAsIs b P, nlev (gsLevelsAsIs b P))
+    ∧ gsLevelsN b P = (gsLevels b P, nlev (gsLevels b P)) :=
+  ⟨iluLevelsN_eq b P, gsLevelsAsIsN_eq b P, gsLevelsN_eq b P⟩
+
+example : gsLevelsN true #[[0, 1], [1, 2], [0, 2], [3]] = (#[0, 1, 2, 0], 3) := by decide +kernel
+
+/-- **The constructors from the pattern to the task table, statement by statement** (step 1 with its `nlev`, counting
+sort sized by that `nlev`, chunking, gathering through `order`) compute the task table `tasks (levels P) nt` the
+theorems of this file speak about — every pattern, every thread count, both kernels, both directions. -/
+theorem constructor_literal_eq_spec (b : Bool) (P : Pattern) (nt : Nat) :
+    constructorLit (gsLevelsN b P) nt = tasks (gsLevels b P) nt
+    ∧ constructorLit (gsLevelsAsIsN b P) nt = tasks (gsLevelsAsIs b P) nt
+    ∧ constructorLit (iluLevelsN b P) nt = tasks (iluLevels b P) nt := by
+  rw [gsLevelsN_eq, gsLevelsAsIsN_eq, iluLevelsN_eq]
+  exact ⟨scheduleLit_eq_tasks _ nt, scheduleLit_eq_tasks _ nt, scheduleLit_eq_tasks _ nt⟩
+
+example : constructorLit (gsLevelsN true #[[0, 1], [1, 2], [0, 2], [3], [4, 3], [5]]) 4
+    = [[[0], [1], [2]], [[3], [4], []], [[5], [], []], [[], [], []]] := by decide +kernel
 
 /-- **every row exactly once** (literal schedule): for every `nt ≥ 1`, running the levels one after the other and the
 threads of a level in thread order visits the rows in the order `order` — a permutation of `0..n-1`; the tasks of a
